@@ -4,7 +4,7 @@ CFG = {
     "prop_file": "Properties/C14.v",
     "run_modules": ["Verif.C14.Run"],
     "coq_dirs": ["C14"],
-    "n": {"quick": 3000, "thorough": 200000},
+    "n": {"quick": 3000, "thorough": 75000},
     "shard": 200,
     "level": "proof",
     "rule": ("call chains of 0..8 frames (plus the thrower), JS frames (no try / catch→swallow|rethrow|throw new / finally, any "
@@ -46,7 +46,7 @@ CFG = {
                  "rejection handler (uncatchable_invisible, for every chain incl. errors.Join'ing natives since fix 63ed9d0); a "
                  "foreign panic crosses every chain unchanged (foreign_propagates); catch-and-rethrow preserves the value and a frame "
                  "without catch passes on the very same *Exception (rethrow_identity). 17 theorems, no axioms. The model is tied to "
-                 "/repo on every run by building 3000 (quick) / 200000 (thorough) chains as real JS + Go closures and comparing what "
+                 "/repo on every run by building 3000 (quick) / 75000 (thorough) chains as real JS + Go closures and comparing what "
                  "every catch/finally/rejection handler/Go caller/embedder observed with the model evaluated by vm_compute; the "
                  "throw-site position of the top stack frame is checked by the harness."),
         "note": ("trusted: Coq kernel + vm_compute; the hand transcription in coq/C14/Model.v; the Go harness; identity compared as "
